@@ -42,7 +42,11 @@ Err == [ok |-> FALSE]
 
 Set(refs, logs, n, v) == St(Put(refs, n, v), logs, Ok)
 
-(* a log entry is <<old, new, meta>>; its old value is the value held just before *)
+(* a log entry is <<old, new, meta>>; its old value is the value held just before;   *)
+(* meta stands for everything else an entry records (author, action, message, the     *)
+(* transaction that wrote it): rename and copy carry it along unchanged.  The         *)
+(* generators write two kinds: MetaOf(v) = 1 "by a transaction", 0 plain.             *)
+MetaOf(v) == v % 2
 SetWithLog(refs, logs, n, v, meta) ==
   St(Put(refs, n, v),
      Put(logs, n, Append(LogOf(logs, n), <<Cur(refs, n), v, meta>>)),
